@@ -7,16 +7,17 @@
 import Gojq.Proofs.MiniVMRefineCall
 import Gojq.Proofs.MiniVMRefineTry
 import Gojq.Proofs.MiniVMRefineCond
+import Gojq.Proofs.MiniVMRefineVar
 namespace Gojq.MiniVM
 variable [IterMsg]
 set_option linter.unusedSectionVars false
 
 /-- `compile_yields`: induction on the fuel, one lemma per construct -/
 theorem compile_yields {code defs entry nf} (hfun : FuncsOK code defs entry nf) :
-    ∀ (n : Nat) (q : Q) (g : Option Name) (e p : Nat), e ≤ p → Seg code p (compile entry g e p q) → q.Closed nf →
-    ∀ ρ v S F R fr o cp (P : Nat → Prop), TopIs fr e → scopeOf entry g ≤ e → (q.HasParam → ρ ≠ .none) →
+    ∀ (n : Nat) (q : Q) (g : Ctx) (e p : Nat), e ≤ p → Seg code p (compile entry g e p q) → q.Closed nf (g.vars.map (·.1)) →
+    ∀ (ρ : Env) v S F R fr o cp (P : Nat → Prop), TopIs fr e → scopeOf entry g ≤ e → (q.HasParam → ρ.clo ≠ .none) →
       (∀ a, P a → a < base fr + (p - e)) →
-      EnvRel code entry nf P R fr (fr.length - 1) ρ g →
+      EnvOK code entry nf P R fr ρ g →
       base fr + (p + (compile entry g e p q).length - e) ≤ o → ND (eval defs n g ρ q v).stop →
       Yields code (Own (base fr) e p (compile entry g e p q).length) P o fr F (p + (compile entry g e p q).length) S
         (.run p (.v v :: S) F false none R fr o cp) (eval defs n g ρ q v).outs (eval defs n g ρ q v).stop.toErr := by
@@ -42,12 +43,14 @@ theorem compile_yields {code defs entry nf} (hfun : FuncsOK code defs entry nf) 
       | index k => exact cy_index hfun ihn k
       | ite c a b => exact cy_ite hfun ihn c a b
       | alt l r => exact cy_alt hfun ihn l r
+      | var x => exact cy_var hfun ihn x
+      | bind x s b => exact cy_bind hfun ihn x s b
   exact key
 
 
 /-! ## code layout -/
 
-theorem compile_length (entry : Name → Nat) : ∀ (q : Q) (g : Option Name) (e p : Nat), (compile entry g e p q).length = q.size := by
+theorem compile_length (entry : Name → Nat) : ∀ (q : Q) (g : Ctx) (e p : Nat), (compile entry g e p q).length = q.size := by
   intro q
   induction q with
   | id => intros; rfl
@@ -65,6 +68,8 @@ theorem compile_length (entry : Name → Nat) : ∀ (q : Q) (g : Option Name) (e
   | index k => intros; rfl
   | ite c a b ihc iha ihb => intro g e p; simp [compile, Q.size, ihc, iha, ihb]; omega
   | alt l r ihl ihr => intro g e p; simp [compile, Q.size, ihl, ihr]; omega
+  | var x => intros; rfl
+  | bind x s b ihs ihb => intro g e p; simp [compile, Q.size, ihs, ihb]; omega
 
 theorem Seg.mid (A B C : List Instr) : Seg (A ++ B ++ C) A.length B := by
   intro i hi
@@ -117,7 +122,7 @@ theorem prog_func_seg (p : Prog) (k : Nat) (hk : k < p.defs.length) :
       ([Instr.scope 0 (1 + funcsLen p.defs + p.main.size) 0] ++ compileFuncs (entryOf p.defs) 0 1 (p.defs.take k)) ++
         compileFunc (entryOf p.defs) k p.defs[k] (1 + funcsLen (p.defs.take k)) ++
         (compileFuncs (entryOf p.defs) (k + 1) (1 + funcsLen (p.defs.take k) + p.defs[k].size + 6) (p.defs.drop (k+1)) ++
-          compile (entryOf p.defs) none 0 (1 + funcsLen p.defs) p.main ++ [Instr.ret]) := by
+          compile (entryOf p.defs) ⟨none, []⟩ 0 (1 + funcsLen p.defs) p.main ++ [Instr.ret]) := by
     simp only [compileProg]
     conv => lhs; rw [hsplit]
     rw [compileFuncs_append]
@@ -126,19 +131,19 @@ theorem prog_func_seg (p : Prog) (k : Nat) (hk : k < p.defs.length) :
   have := Seg.mid' ([Instr.scope 0 (1 + funcsLen p.defs + p.main.size) 0] ++ compileFuncs (entryOf p.defs) 0 1 (p.defs.take k))
     (compileFunc (entryOf p.defs) k p.defs[k] (1 + funcsLen (p.defs.take k)))
     (compileFuncs (entryOf p.defs) (k + 1) (1 + funcsLen (p.defs.take k) + p.defs[k].size + 6) (p.defs.drop (k+1)) ++
-          compile (entryOf p.defs) none 0 (1 + funcsLen p.defs) p.main ++ [Instr.ret])
+          compile (entryOf p.defs) ⟨none, []⟩ 0 (1 + funcsLen p.defs) p.main ++ [Instr.ret])
     (1 + funcsLen (p.defs.take k)) (by simp [compileFuncs_length]; omega)
   rw [← hc] at this
   exact this
 
 theorem prog_main_seg (p : Prog) :
-    Seg (compileProg p) (1 + funcsLen p.defs) (compile (entryOf p.defs) none 0 (1 + funcsLen p.defs) p.main) := by
+    Seg (compileProg p) (1 + funcsLen p.defs) (compile (entryOf p.defs) ⟨none, []⟩ 0 (1 + funcsLen p.defs) p.main) := by
   exact Seg.mid' ([Instr.scope 0 (1 + funcsLen p.defs + p.main.size) 0] ++ compileFuncs (entryOf p.defs) 0 1 p.defs)
-    (compile (entryOf p.defs) none 0 (1 + funcsLen p.defs) p.main) [Instr.ret] _ (by simp [compileFuncs_length]; omega)
+    (compile (entryOf p.defs) ⟨none, []⟩ 0 (1 + funcsLen p.defs) p.main) [Instr.ret] _ (by simp [compileFuncs_length]; omega)
 
 theorem prog_ret (p : Prog) : (compileProg p)[1 + funcsLen p.defs + p.main.size]? = some .ret := by
   exact getElem?_mid ([Instr.scope 0 (1 + funcsLen p.defs + p.main.size) 0] ++ compileFuncs (entryOf p.defs) 0 1 p.defs ++
-    compile (entryOf p.defs) none 0 (1 + funcsLen p.defs) p.main) .ret [] _
+    compile (entryOf p.defs) ⟨none, []⟩ 0 (1 + funcsLen p.defs) p.main) .ret [] _
     (by simp [compileFuncs_length, compile_length]; omega)
 
 theorem prog_scope0 (p : Prog) : (compileProg p)[0]? = some (.scope 0 (1 + funcsLen p.defs + p.main.size) 0) := by
@@ -305,9 +310,9 @@ instance (s : Stop) : Decidable (ND s) := by
 
 /-- the whole program: `env.execute`, then `Next()` until exhaustion -/
 theorem prog_refines (p : Prog) (hwf : p.WF) (v : V) (n : Nat)
-    (hnd : ND (eval p.defsFn n none .none p.main v).stop) :
+    (hnd : ND (eval p.defsFn n ⟨none, []⟩ ⟨.none, []⟩ p.main v).stop) :
     Run (compileProg p) (initCfg (compileProg p) v)
-      (eval p.defsFn n none .none p.main v).outs (eval p.defsFn n none .none p.main v).stop.toErr := by
+      (eval p.defsFn n ⟨none, []⟩ ⟨.none, []⟩ p.main v).outs (eval p.defsFn n ⟨none, []⟩ ⟨.none, []⟩ p.main v).stop.toErr := by
   let m : Frame := ⟨0, (compileProg p).length - 1, 0, 0, none⟩
   let cp : CP := ((compileProg p).length - 1, none)
   have s1 : Steps (compileProg p) (initCfg (compileProg p) v)
@@ -315,11 +320,12 @@ theorem prog_refines (p : Prog) (hwf : p.WF) (v : V) (n : Nat)
     Steps.one (by simp [step, initCfg, prog_scope0, m, cp])
   have s2 := skip_defs p [.v v] [] false none (fun _ => .v .null) [m] (1 + funcsLen p.defs + p.main.size) cp p.defs.length 0 (by omega)
   simp only [List.take_zero, funcsLen, List.map_nil, List.sum_nil, Nat.add_zero] at s2
-  have y := compile_yields (funcsOK_compileProg p hwf) n p.main none 0 (1 + funcsLen p.defs) (Nat.zero_le _)
-    (prog_main_seg p) hwf.main_closed .none v [] [] (fun _ => .v .null) [m] (1 + funcsLen p.defs + p.main.size) cp
-    (fun _ => False) ⟨m, [], rfl, rfl⟩ (by simp [scopeOf]) (fun h => absurd h hwf.main_noparam) (fun _ h => h.elim) EnvRel.none
+  have y := compile_yields (funcsOK_compileProg p hwf) n p.main ⟨none, []⟩ 0 (1 + funcsLen p.defs) (Nat.zero_le _)
+    (prog_main_seg p) hwf.main_closed ⟨.none, []⟩ v [] [] (fun _ => .v .null) [m] (1 + funcsLen p.defs + p.main.size) cp
+    (fun _ => False) ⟨m, [], rfl, rfl⟩ (by simp [scopeOf, scopeOfFn]) (fun h => absurd h hwf.main_noparam) (fun _ h => h.elim)
+    ⟨EnvRel.none, fun x r hx => by simp [lookup] at hx⟩
     (by simp only [base, m, compile_length]; omega) hnd
-  have hret : (compileProg p)[1 + funcsLen p.defs + (compile (entryOf p.defs) none 0 (1 + funcsLen p.defs) p.main).length]? = some .ret := by
+  have hret : (compileProg p)[1 + funcsLen p.defs + (compile (entryOf p.defs) ⟨none, []⟩ 0 (1 + funcsLen p.defs) p.main).length]? = some .ret := by
     rw [compile_length]; exact prog_ret p
   exact (yields_run hret y).steps_left (s1.trans (by simpa [funcsLen] using s2))
 
